@@ -30,15 +30,22 @@ class Const(V):
 
 class Unknown(V):
     """top; `deps` are the sources it may depend on, `ty` an optional type tag"""
-    __slots__ = ("deps", "ty", "why")
+    __slots__ = ("deps", "ty", "why", "cmp")
 
-    def __init__(self, deps=frozenset(), ty=None, why=""):
+    def __init__(self, deps=frozenset(), ty=None, why="", cmp=None):
         self.deps, self.ty, self.why = frozenset(deps), ty, why
+        # cmp = (Compare node, (lhs value, rhs value), negated, frame id): the undecided comparison this boolean stands for; it is
+        # decided (fork + `cond` event on that node + refinement) when the value is branched on - `x = a == b; if x:` reads like `if a == b:`
+        self.cmp = cmp
 
     def __repr__(self):
         return "Unknown(%s%s)" % (self.ty or "", ",".join(sorted(map(str, self.deps)))[:60])
 
     def key(self):
+        if self.cmp is not None:
+            n_, vals, neg, _fid = self.cmp
+            return ("U", self.ty, tuple(sorted(map(repr, self.deps))), getattr(n_, "lineno", 0), getattr(n_, "col_offset", 0), neg,
+                    tuple(v.key() if hasattr(v, "key") else repr(v) for v in vals))
         return ("U", self.ty, tuple(sorted(map(repr, self.deps))))
 
 
